@@ -10,6 +10,7 @@ import re
 import shutil
 import subprocess
 import sys
+import threading
 import time
 
 import props as P
@@ -104,7 +105,7 @@ def ensure_drv_rc():
     if (not os.path.exists(obj)
             or os.path.getmtime(obj) < os.path.getmtime(src)
             or os.path.getmtime(obj) < os.path.getmtime(hdr)):
-        tmp = obj + '.%d.tmp' % os.getpid()
+        tmp = obj + '.%d.%d.tmp' % (os.getpid(), threading.get_ident())
         r = run(['clang++', '-std=gnu++17', '-O2', '-I', HARNESS, '-c', src,
                  '-o', tmp])
         if r.returncode != 0:
